@@ -17,6 +17,7 @@ import (
 	"os"
 	"os/exec"
 	"sort"
+	"strconv"
 	"strings"
 	"time"
 
@@ -183,6 +184,9 @@ type obs struct {
 	hits  string
 	qerr  string
 	hitsL []ai.Hit[payloadT]
+	// a centroid vector read back after the op holds Inf or NaN (the rolling average (c*n+v)/(n+1) of count tracking is
+	// the only arithmetic Upsert does on centroid vectors: with finite inputs it is non-finite exactly when n+1 = 0)
+	centNonFinite bool
 }
 
 type querySpec struct {
@@ -283,6 +287,11 @@ func (e *env) observe(nIDs int, qs *querySpec, skipQueryOver int) (*obs, error) 
 		n := 0
 		if it.Value != nil {
 			n = it.Value.VectorCount
+			for _, x := range it.Value.Vector {
+				if x != x || x > 3e38 || x < -3e38 {
+					o.centNonFinite = true
+				}
+			}
 			if os.Getenv("VERIF_C33_DEBUG") != "" {
 				fmt.Fprintln(os.Stderr, "centroid", it.Key, it.Value.Vector, n)
 			}
@@ -388,6 +397,10 @@ type caseRun struct {
 	abandon  bool
 	prev     *dump          // the dump observed after the previous step
 	sticky   map[int]string // id -> signature of a defect already reported for it (kept until the id is written again)
+	// count tracking: id -> the vector the harness SAW appear in that id's Vectors item while an Upsert of OTHER ids ran
+	// (the `rw` oracle input: the rolling average wrote through the slice the centroid shares with that item). This is
+	// the evidence the C33-F4 classification rests on; it is dropped when the id is written or deleted again.
+	rwBy map[int]int
 }
 
 func modeName(m ai.UsageMode) string {
@@ -460,7 +473,7 @@ func (c *caseRun) upsert(items []item, batch bool, qs *querySpec) error {
 		// a rejected batch left no trace and the centroids it would have chosen item by item are not observable:
 		// it is judged by the direct oracle and left out of the replayed program
 		c.s.Hit("rejected_batch_not_replayed")
-		c.failUpsert(res)
+		c.failUpsert(res, len(items), o, items)
 		c.abandon = true // see below: what the rejected commit left in the process cache is not modelled
 		return nil
 	}
@@ -488,6 +501,12 @@ func (c *caseRun) upsert(items []item, batch bool, qs *querySpec) error {
 			id := vecx.IDNum(v.key.ItemID)
 			if w, ok := was[id]; ok && !touched[id] && w != v.vec {
 				rw = append(rw, fmt.Sprintf("%d:%d", id, v.vec))
+				if c.tracking {
+					c.rwBy[id] = v.vec
+					if v.vec > 0 {
+						c.s.Hit("stored_vector_overwritten_with_exact_table_vector")
+					}
+				}
 			}
 		}
 		if len(rw) > 0 {
@@ -501,10 +520,11 @@ func (c *caseRun) upsert(items []item, batch bool, qs *querySpec) error {
 			c.ref[it.id] = refItem{it.vec, it.payload}
 			c.everUsed[it.id] = true
 			delete(c.sticky, it.id)
+			delete(c.rwBy, it.id)
 		}
 		c.s.Hit("op_upsert_ok")
 	} else {
-		c.failUpsert(res)
+		c.failUpsert(res, len(items), o, items)
 		// a rejected commit leaves non-finite numbers in vectors held by the process cache; what later transactions
 		// do with them (more rejected commits, a failing Optimize) is not modelled: the case ends after this step
 		c.abandon = true
@@ -513,23 +533,50 @@ func (c *caseRun) upsert(items []item, batch bool, qs *querySpec) error {
 	return c.after(o, qs)
 }
 
-func (c *caseRun) failUpsert(res string) {
+func (c *caseRun) rwByIs(id, v int) bool {
+	w, ok := c.rwBy[id]
+	return ok && w == v
+}
+
+func (c *caseRun) failUpsert(res string, nItems int, o *obs, items []item) {
 	c.s.Hit("op_upsert_" + res)
 	sig := "C33/upsert-rejected:" + strings.ReplaceAll(res, " ", "-")
 	if c.tracking && res == "err:commit" {
+		// the division by zero happens when the op's increments step a centroid's count through -1: a count of -1
+		// before a single Upsert, or a count of -m (the Delete miscount repeated) before a batch of at least m items
 		minus1 := false
 		if c.prev != nil {
 			for _, ce := range c.prev.cents {
-				if ce[1] == -1 {
+				if ce[1] < 0 && nItems >= -ce[1] {
 					minus1 = true
+					if ce[1] < -1 {
+						c.s.Hit("rejected_batch_steps_count_through_minus_one")
+					}
 				}
 			}
+		}
+		// ... or inside the op: a batch item that re-upserts a tombstoned id into another centroid decrements the old
+		// centroid again (the same miscount), which can take a count of 0 to -1 before another item of the batch is
+		// added to it. Whatever the path, the evidence is the same and is read back from the store: a centroid vector
+		// is Inf/NaN after the rejected commit, which the rolling average produces exactly when the count was -1
+		if o != nil && o.centNonFinite {
+			if !minus1 {
+				c.s.Hit("rejected_upsert_count_reached_minus_one_inside_the_op")
+			}
+			minus1 = true
 		}
 		if minus1 {
 			sig = "C33/upsert-rejected:tracking-count-minus-one-division"
 		}
 	}
-	c.s.Fail(sig, "a valid Upsert is rejected with an error (the store keeps the previous state)", res)
+	detail := res
+	if nItems > 1 {
+		detail += " batch"
+		for _, it := range items {
+			detail += fmt.Sprintf(" %d:%d", it.id, it.vec)
+		}
+	}
+	c.s.Fail(sig, "a valid Upsert is rejected with an error (the store keeps the previous state)", detail)
 }
 
 // closest recomputes the centroid an item would be assigned to (used only for a rejected Upsert).
@@ -580,6 +627,7 @@ func (c *caseRun) del(id int, qs *querySpec) error {
 	if res == "ok" {
 		delete(c.ref, id)
 		delete(c.sticky, id)
+		delete(c.rwBy, id)
 		c.s.Hit("op_delete_ok")
 	} else {
 		c.s.Hit("op_delete_" + res)
@@ -717,6 +765,12 @@ func (c *caseRun) after(o *obs, qs *querySpec) error {
 			case v == -1 && p == r.payload && c.tracking:
 				overwritten[i] = true
 				fail(i, "C33/tracking-rolling-average-overwrites-stored-vector", "count tracking: Get of a live id returns a vector that was never upserted (the centroid's rolling average wrote through a shared slice)", fmt.Sprintf("id %d got %s want vec %d", i, g, r.vec))
+			case c.tracking && p == r.payload && v != r.vec && c.rwByIs(i, v):
+				// the same write-through, seen when the average happens to equal a table vector exactly (centroid count 0
+				// after the Delete miscount: (c*0+v)/1 = v): the value Get returns is the one observed being written into
+				// this id's item by an Upsert of another id
+				overwritten[i] = true
+				fail(i, "C33/tracking-rolling-average-overwrites-stored-vector", "count tracking: Get of a live id returns a vector that was never upserted for it (the centroid's rolling average wrote through a shared slice; here the average equals another id's vector exactly)", fmt.Sprintf("id %d got %s want vec %d (the harness saw vec %d written into this id's Vectors item by an Upsert of another id)", i, g, r.vec, v))
 			case v != r.vec:
 				fail(i, "C33/get-stale-vector:after-"+ctxTag, "Get of a live id does not return its latest vector", fmt.Sprintf("id %d got %s want vec %d payload %d", i, g, r.vec, r.payload))
 			default:
@@ -918,7 +972,7 @@ func runCase(s *hx.Session, p *hx.Prng, caseNo int, kind caseKind, script []stri
 		return fmt.Errorf("creating the stores: %v %v", r, err)
 	}
 	s.BeginCase(fmt.Sprintf("mode %s buffer %s dedup %s", modeName(kind.mode), b01(kind.buffer), b01(kind.dedup)))
-	c := &caseRun{s: s, e: e, nIDs: nIDs, ref: map[int]refItem{}, everUsed: map[int]bool{}, sticky: map[int]string{}, tracking: kind.mode == ai.DynamicWithVectorCountTracking, stage0: kind.buffer}
+	c := &caseRun{s: s, e: e, nIDs: nIDs, ref: map[int]refItem{}, everUsed: map[int]bool{}, sticky: map[int]string{}, rwBy: map[int]int{}, tracking: kind.mode == ai.DynamicWithVectorCountTracking, stage0: kind.buffer}
 	s.Hit("case_mode_" + modeName(kind.mode))
 	s.Hit("case_buffer_" + b01(kind.buffer))
 	s.Hit("case_dedup_" + b01(kind.dedup))
@@ -952,6 +1006,18 @@ func runCase(s *hx.Session, p *hx.Prng, caseNo int, kind caseKind, script []stri
 				fmt.Sscanf(l, "up %d %d %d", &a, &b, &d)
 				c.pcount++
 				if err := c.upsert([]item{{a, b, c.pcount, d}}, false, &querySpec{q: 0, k: 10}); err != nil {
+					return err
+				}
+			case strings.HasPrefix(l, "batch "): // batch <id> <vec> <id> <vec> ...
+				f := strings.Fields(l)[1:]
+				var items []item
+				for j := 0; j+1 < len(f); j += 2 {
+					id, _ := strconv.Atoi(f[j])
+					v, _ := strconv.Atoi(f[j+1])
+					c.pcount++
+					items = append(items, item{id, v, c.pcount, 0})
+				}
+				if err := c.upsert(items, true, &querySpec{q: 0, k: 10}); err != nil {
 					return err
 				}
 			case strings.HasPrefix(l, "del "):
@@ -1086,8 +1152,20 @@ var corpus = []struct {
 	{"dedup-off-reupsert", caseKind{ai.Dynamic, false, false, false}, []string{"up 0 1", "up 0 3"}},
 	// the ingestion buffer flag kept after Optimize (outside the usage rule): recorded, see run()
 	{"buffer-kept", caseKind{ai.Dynamic, true, true, false}, []string{"up 0 1", "opt-keep-buffer"}},
+	// count tracking: Delete twice drives centroid 1's count to 0; the next new id's rolling average (c*0+v)/1 is exactly
+	// its vector and is written through the slice id 0 shares with the centroid: Get(0) returns another id's vector
+	{"tracking-overwrite-exact", caseKind{ai.DynamicWithVectorCountTracking, false, true, false}, []string{"up 0 6", "up 1 6", "del 1", "del 1", "up 2 8"}},
+	// count tracking: repeated Deletes of tombstoned ids drive the count to -2; a batch of two new ids steps it through
+	// -1 and the second item divides by zero: the whole batch is rejected (the C33-F5 mechanism from a count below -1)
+	{"tracking-count-batch", caseKind{ai.DynamicWithVectorCountTracking, false, true, false}, []string{"up 0 1", "up 1 3", "del 1", "del 1", "del 0", "del 1", "batch 2 4 3 5"}},
+	// count tracking: inside one batch, the re-upsert of tombstoned id 3 into another centroid decrements its old centroid 3
+	// again (0 -> -1) and the next item, assigned to centroid 3, divides by zero (C33-F5 reached inside the op)
+	{"tracking-count-batch-reupsert", caseKind{ai.DynamicWithVectorCountTracking, false, true, false}, []string{"up 0 6", "up 3 9 3", "del 3", "batch 3 6 1 9"}},
 	{"plain", caseKind{ai.Dynamic, false, true, false}, []string{"up 0 1", "up 1 2", "up 2 5", "del 1", "opt", "up 1 4", "del 2", "opt", "up 0 6"}},
 }
+
+// corpus entries added after generated cases of a seed were reported: they get a generator of their own
+var lateAdditions = map[string]bool{"tracking-overwrite-exact": true, "tracking-count-batch": true, "tracking-count-batch-reupsert": true}
 
 func run(o hx.RunOpts) error {
 	slog.SetDefault(slog.New(slog.NewTextHandler(io.Discard, nil)))
@@ -1104,7 +1182,11 @@ func run(o hx.RunOpts) error {
 	for _, cc := range corpus {
 		caseNo++
 		before := len(s.Rep.OracleFailures)
-		if err := runCase(s, p.Fork(), caseNo, cc.kind, cc.script, 0); err != nil {
+		cp := hx.NewPrng(o.Seed + 7919)
+		if !lateAdditions[cc.name] {
+			cp = p.Fork() // (a scripted case draws nothing from it; later additions must not shift the generated cases of a seed)
+		}
+		if err := runCase(s, cp, caseNo, cc.kind, cc.script, 0); err != nil {
 			return fmt.Errorf("corpus %s: %w", cc.name, err)
 		}
 		s.Hit("corpus_" + cc.name)
